@@ -2,7 +2,7 @@
    `agrees st builder spec` (Proofs/C07_lemmas.v): spec = Some r  -> the builder succeeds and what reaches the wire
    is exactly the ISO frame of r; spec = None (outside the documented domain) -> the builder fails. *)
 From Coq Require Import ZArith List Bool String.
-From UDS Require Import Lib.Bytes Lib.ErrM Model.Svc_Dtc Spec.IsoRequests Model.Message Model.Client Model.Services Model.Helpers
+From UDS Require Import Lib.Bytes Lib.ErrM Model.Svc_Dtc Model.Svc_File Spec.IsoRequests Model.Message Model.Client Model.Services Model.Helpers
   Model.MemLoc Model.Svc_Simple Model.Svc_Memory Model.Svc_Did Model.History Proofs.Client_lemmas Proofs.C07_lemmas Proofs.C14_lemmas.
 Import ListNotations.
 Open Scope Z_scope.
@@ -113,7 +113,15 @@ Theorem C07_define_by_did : forall st cfg did entries,
 Proof. exact define_by_did_agrees. Qed.
 Print Assumptions C07_define_by_did.
 
-(* C07_partial: the builders of io_control, dynamically_define_did by memory address (its widths: C14), request_file_transfer,
-   and authentication are not yet characterised by a Coq theorem against Spec/IsoRequests.v; for
+(* authentication (and its nine convenience methods): every task 0..8, every combination of present / absent / out-of-range
+   configuration byte and evaluation id, over-long and absent byte strings, algorithm indicators of any length *)
+Theorem C07_authentication : forall st task a,
+  agrees st (auth_make task a)
+    (iso_authentication task (au_cfg a) (au_cert a) (au_chal a) (au_algo a) (au_evalid a) (au_certdata a) (au_pown a) (au_eph a) (au_add a)).
+Proof. exact authentication_agrees. Qed.
+Print Assumptions C07_authentication.
+
+(* C07_partial: the builders of io_control, dynamically_define_did by memory address (its widths: C14), and request_file_transfer
+   are not yet characterised by a Coq theorem against Spec/IsoRequests.v; for
    them the documented domain and the exact frame are checked by the boundary-complete correspondence against the
    independent oracle tools/harness/isospec.py (same statement, evaluated on the implementation and on the model). *)
